@@ -300,7 +300,7 @@ def run_unit(ctx, u):
                     try:
                         enc = make(N, k, True, False, dtype=dt)
                         msgs = torch.tensor([[rng.getrandbits(1) for _ in range(k)] for _ in range(6)], dtype=torch.float32)
-                        cw = enc(msgs).to(torch.float32)
+                        cw = enc(msgs.to(dt)).to(torch.float32)  # messages in the encoder's own dtype
                         sc = D.SuccessiveCancellationDecoder(enc, regime=regime)
                     except Exception:  # noqa: BLE001
                         ctx.skip(f"encoder dtype {str(dt).replace('torch.', '')} rejected")
